@@ -29,6 +29,13 @@ def zero_value(ie, rng=None):
     return ZERO.get(ie.ty, "n0")
 
 
+def odd(rng, ie):
+    """a user-made element ("arbitrary element lists"): a string element that DECLARES a fixed length; the
+    library encodes it length-prefixed all the same (StringInfoElement.GetLength ignores the declaration)"""
+    s13 = G.by_type()[13][0]
+    return G.IE(55555, rng.choice([1, 200, 32767]), 13, rng.choice([1, 2, 16, 255, 65534]), "user" + s13.name[:12])
+
+
 def elems_token(rng, ies, data):
     if not ies:
         return "-"
@@ -45,6 +52,8 @@ def body_ops(rng, n, sup):
         if r < 0.55:
             k = rng.choice([0, 1, 1, 2, 3, 5, 12])
             ies = [rng.choice(sup) for _ in range(k)]
+            if rng.random() < 0.2:
+                ies = [odd(rng, ie) if rng.random() < 0.4 else ie for ie in ies]
             tok = elems_token(rng, ies, ty == "d")
             if ty == "t" and k >= 2 and rng.random() < 0.15:
                 # an element with a value in a template record: AddRecord refuses it part-way; the set must stay as it was
